@@ -20,6 +20,7 @@ mod p_c06;
 mod p_c07;
 mod p_c08;
 mod p_c09;
+mod p_c10;
 mod p_c12;
 mod p_c13;
 mod p_c14;
@@ -48,6 +49,7 @@ fn run_one(prop: &str, ctx: &mut CaseCtx) -> CaseResult {
         "C07" => p_c07::run_case(ctx),
         "C08" => p_c08::run_case(ctx),
         "C09" => p_c09::run_case(ctx),
+        "C10" => p_c10::run_case(ctx),
         "C12" => p_c12::run_case(ctx),
         "C13" => p_c13::run_case(ctx),
         "C14" => p_c14::run_case(ctx),
@@ -168,9 +170,10 @@ fn run(args: &Args) -> i32 {
         ),
         None => Box::new(std::io::stdout()),
     };
+    let from: u64 = std::env::var("FLMON_FROM").ok().and_then(|v| v.parse().ok()).unwrap_or(0);
     let range: Vec<u64> = match args.only {
         Some(i) => vec![i],
-        None => (0..args.cases).collect(),
+        None => (from..args.cases).collect(),
     };
     let mut violated = false;
     for case in range {
@@ -241,7 +244,8 @@ fn run(args: &Args) -> i32 {
         if args.verbose {
             eprintln!("{}", serde_json::to_string_pretty(&line).unwrap_or_default());
         }
-        if args.only.is_none() || res.verdict == Verdict::Held {
+        let keep = std::env::var("FLMON_KEEP").is_ok() && res.verdict != Verdict::Held;
+        if (args.only.is_none() && !keep) || res.verdict == Verdict::Held {
             util::remove_dir(&dir);
         } else {
             eprintln!("scratch directory kept: {}", dir.display());
@@ -310,6 +314,7 @@ fn main() {
                 ("C13", _) => p_c13::child_main(&a),
                 ("C03", _) => p_c03::child_main(&a),
                 ("C04", _) => p_c04::child_main(&a),
+                ("C10", _) => p_c10::child_main(&a),
                 _ => {
                     eprintln!("no child role {} for {}", a.role, a.prop);
                     2
